@@ -7,7 +7,7 @@ META = dict(
     level_text="Machine-checked: C03_atomic_single_flush — a storage-call sequence with a single final flush recovers, at EVERY crash cut incl. torn calls, to exactly the bytes before or after it; "
                "C03_no_inner_flush — an outer Storage transaction around a body of matched nested transactions produces exactly one flush, at the end (the shape of DbImpl::transaction_mut after the fix: commit); "
                "witness that the pre-fix code flushed inside a query. Tie to /repo: every generated query / transaction on DbFile and Db is checked to issue exactly one flush as its last storage call, and sampled "
-               "crash snapshots (all mutating file-system calls + torn prefixes) are reopened and their full ordered dump must equal the dump before or after the interrupted query.",
+               "crash snapshots (all mutating file-system calls + torn prefixes) are reopened and their full ordered dump must equal the dump before or after the interrupted query. The *_guarded theorems state the same for the recovery with the position check of apply_wal_record (model recover_g, fixes/C07-wal-position.diff): on these logs the check never fires (C01_guarded_recovery_agrees), so the statements hold for a tree with or without it.",
     design_ref="DESIGN.md §5 C03",
     level_note="Trusted: Coq kernel, Rust harness incl. snapshot routine, std::fs; the step from 'file bytes equal' to 'database observably identical' is that the structures are loaded from the bytes only "
                "(checked by reopening every snapshot). The shape of transaction_mut is checked at run time (flush positions), not derived from the Rust text.",
